@@ -18,6 +18,7 @@ import (
 	"math/big"
 	"sort"
 	"strings"
+	"sync/atomic"
 	"time"
 
 	"github.com/zmap/zcrypto/verifier"
@@ -272,7 +273,9 @@ type chainRef struct {
 }
 
 type caseT struct {
-	u       *pki.Universe
+	u       certSource
+	wins    []pki.Window // the validity windows CertDesc.Win indexes
+	nowU    bool         // the universe with windows relative to the wall clock
 	b       *pki.Built
 	cert    *pki.Cert
 	inGraph bool
@@ -303,6 +306,8 @@ type witness struct {
 	Graph    []string     `json:"graph"`
 	Cert     pki.CertDesc `json:"certificate"`
 	InGraph  bool         `json:"certificate_in_graph"`
+	NowU     bool         `json:"windows_relative_to_now,omitempty"`
+	Default  bool         `json:"verify_time_left_zero,omitempty"`
 	Time     time.Time    `json:"verify_time"`
 	TimeNote string       `json:"verify_time_note,omitempty"`
 	Name     string       `json:"name"`
@@ -337,7 +342,7 @@ func (k *caseT) chainNames(ch x509.CertificateChain) []string {
 	return out
 }
 
-func secondsOf(u *pki.Universe, chains []x509.CertificateChain, keep func(*x509.Certificate) bool) map[string]bool {
+func secondsOf(u certSource, chains []x509.CertificateChain, keep func(*x509.Certificate) bool) map[string]bool {
 	out := map[string]bool{}
 	for _, ch := range chains {
 		if len(ch) >= 2 && (keep == nil || keep(ch[1])) {
@@ -362,6 +367,8 @@ func sameKeys(a, b map[string]bool) bool {
 type resultDump struct {
 	Current, Expired, Never, ValidAtExpiration [][]string
 	Parents                                    []string
+	Name                                       string
+	ResultVerifyTime                           string
 	ExpiredFlag                                bool
 	Type                                       string
 	NameError                                  string
@@ -369,7 +376,10 @@ type resultDump struct {
 }
 
 func (k *caseT) dump(res *verifier.VerificationResult) resultDump {
-	d := resultDump{ExpiredFlag: res.Expired, InRevocationSet: res.InRevocationSet}
+	d := resultDump{ExpiredFlag: res.Expired, InRevocationSet: res.InRevocationSet, Name: res.Name}
+	if !res.VerifyTime.IsZero() {
+		d.ResultVerifyTime = res.VerifyTime.UTC().Format(time.RFC3339Nano)
+	}
 	for _, ch := range res.CurrentChains {
 		d.Current = append(d.Current, k.chainNames(ch))
 	}
@@ -408,17 +418,29 @@ func typeName(t x509.CertificateType) string {
 	return strings.Trim(string(b), `"`)
 }
 
-// verifyOne runs Verify once and checks every field the statement names.
-func (k *caseT) verifyOne(c *ev.Ctx, h ev.Hist, t time.Time, tnote, name string, ok, ck int, report bool) {
+const defaultPrefix = "VerifyTime left zero (documented default: now): "
+
+// verifyOne runs Verify once and checks every field the statement names. With
+// deflt the options carry a zero VerifyTime and the reference time is the wall
+// clock sampled right before the call (only used with the universe whose
+// boundaries are hours away from now).
+//
+// Every failed expectation is recorded in *sigs (when sigs is not nil); a
+// default-time call does not report what the explicit-time call of the same
+// configuration already reported (already): such a defect is not one of the default.
+func (k *caseT) verifyOne(c *ev.Ctx, h ev.Hist, t time.Time, tnote, name string, ok, ck int, report, deflt bool, sigs *[]string, already []string) (res *verifier.VerificationResult) {
 	cert := k.cert
 	issuerSPKI := k.issSPKI
 	opts := verifier.VerificationOptions{VerifyTime: t, Name: name, OneCRL: k.oneCRLs[ok], CRLSet: k.crlSets[ck]}
+	if deflt {
+		opts.VerifyTime = time.Time{}
+		t = time.Now()
+	}
 	v := verifier.NewVerifier(k.b.G, nil)
-	var res *verifier.VerificationResult
 	panicked, msg, site := ev.Try(func() { res = v.Verify(cert.X, opts) })
 	c.Transitions.Add(1)
 	mkW := func(detail string) witness {
-		w := witness{Spec: k.b.Spec, Graph: k.b.Spec.Describe(), Cert: cert.Desc, InGraph: k.inGraph, Time: t, TimeNote: tnote, Name: name,
+		w := witness{Spec: k.b.Spec, Graph: k.b.Spec.Describe(), Cert: cert.Desc, InGraph: k.inGraph, NowU: k.nowU, Default: deflt, Time: t, TimeNote: tnote, Name: name,
 			OneCRL: ok, CRLSet: ck, OneCRLs: oneCRLKinds[ok], CRLSets: crlSetKinds[ck], Detail: detail}
 		if res != nil {
 			w.Result = k.dump(res)
@@ -428,17 +450,28 @@ func (k *caseT) verifyOne(c *ev.Ctx, h ev.Hist, t time.Time, tnote, name string,
 	bad := false
 	viol := func(sig, detail string) {
 		bad = true
+		if sigs != nil {
+			*sigs = append(*sigs, sig)
+		}
+		if deflt {
+			for _, a := range already {
+				if a == sig {
+					return
+				}
+			}
+			sig = defaultPrefix + sig
+		}
 		if report {
 			c.Violation(sig, mkW(detail))
 		}
 	}
 	if panicked {
 		viol("Verify panics: panic@"+site+": "+ev.MsgClass(msg), msg)
-		return
+		return nil
 	}
 	if res == nil {
 		viol("Verify returns nil", "")
-		return
+		return nil
 	}
 
 	// --- the three lists partition the walked chains, each chain in a list its window allows
@@ -469,7 +502,7 @@ func (k *caseT) verifyOne(c *ev.Ctx, h ev.Hist, t time.Time, tnote, name string,
 	}
 
 	// --- valid-at-expiration chains: those valid one second before the certificate's NotAfter
-	win := pki.Windows[cert.Desc.Win]
+	win := k.wins[cert.Desc.Win]
 	tExp := win.NotAfter.Add(-time.Second)
 	vae := map[string]bool{}
 	for _, ch := range res.ValidAtExpirationChains {
@@ -546,7 +579,7 @@ func (k *caseT) verifyOne(c *ev.Ctx, h ev.Hist, t time.Time, tnote, name string,
 	r3 := secondsOf(k.u, res.ValidAtExpirationChains, nil)
 	r2 := secondsOf(k.u, res.ValidAtExpirationChains, func(p *x509.Certificate) bool {
 		pc := k.u.ByPtr(p)
-		return pc != nil && t.After(pki.Windows[pc.Desc.Win].NotBefore) && t.Before(pki.Windows[pc.Desc.Win].NotAfter)
+		return pc != nil && t.After(k.wins[pc.Desc.Win].NotBefore) && t.Before(k.wins[pc.Desc.Win].NotAfter)
 	})
 	readings := []map[string]bool{r1, r3, r2}
 	matched := -1
@@ -674,6 +707,59 @@ func (k *caseT) verifyOne(c *ev.Ctx, h ev.Hist, t time.Time, tnote, name string,
 	} else {
 		h["verification conforming"]++
 	}
+	if k.nowU && deflt && !bad {
+		h[fmt.Sprintf("VerifyTime left zero: certificate %s, Expired=%v, parents=%v, %s", nowWindowNames[cert.Desc.Win], res.Expired, len(res.Parents) > 0, typeKeys[res.CertificateType])]++
+	}
+	return res
+}
+
+// sameResult compares, field by field, the result of a call that left VerifyTime
+// zero with the result of a call that passed the wall clock explicitly (chains
+// and parents as sets; VerificationResult.VerifyTime itself is not compared).
+func (k *caseT) sameResult(a, b *verifier.VerificationResult) (diff []string) {
+	chainSet := func(l []x509.CertificateChain) string {
+		var o []string
+		for _, ch := range l {
+			o = append(o, k.chainKey(ch))
+		}
+		sort.Strings(o)
+		return strings.Join(o, ";")
+	}
+	certSet := func(l []*x509.Certificate) string {
+		var o []string
+		for _, x := range l {
+			o = append(o, k.u.FPOf(x))
+		}
+		sort.Strings(o)
+		return strings.Join(o, ";")
+	}
+	errStr := func(e error) string {
+		if e == nil {
+			return "<nil>"
+		}
+		return e.Error()
+	}
+	cmp := func(field string, same bool) {
+		if !same {
+			diff = append(diff, field)
+		}
+	}
+	cmp("Name", a.Name == b.Name)
+	cmp("Expired", a.Expired == b.Expired)
+	cmp("CurrentChains", chainSet(a.CurrentChains) == chainSet(b.CurrentChains))
+	cmp("ExpiredChains", chainSet(a.ExpiredChains) == chainSet(b.ExpiredChains))
+	cmp("NeverValidChains", chainSet(a.NeverValidChains) == chainSet(b.NeverValidChains))
+	cmp("ValidAtExpirationChains", chainSet(a.ValidAtExpirationChains) == chainSet(b.ValidAtExpirationChains))
+	cmp("Parents", certSet(a.Parents) == certSet(b.Parents))
+	cmp("CertificateType", a.CertificateType == b.CertificateType)
+	cmp("NameError", errStr(a.NameError) == errStr(b.NameError))
+	cmp("ValidationError", errStr(a.ValidationError) == errStr(b.ValidationError))
+	cmp("InRevocationSet", a.InRevocationSet == b.InRevocationSet)
+	cmp("OCSPRevoked/CRLRevoked", a.OCSPRevoked == b.OCSPRevoked && a.CRLRevoked == b.CRLRevoked)
+	cmp("OCSPCheckError/CRLCheckError", errStr(a.OCSPCheckError) == errStr(b.OCSPCheckError) && errStr(a.CRLCheckError) == errStr(b.CRLCheckError))
+	cmp("ParentSPKISubjectFingerprint", string(a.ParentSPKISubjectFingerprint) == string(b.ParentSPKISubjectFingerprint) || len(a.Parents) > 1)
+	cmp("ParentSPKI", string(a.ParentSPKI) == string(b.ParentSPKI) || len(a.Parents) > 1)
+	return diff
 }
 
 // ---------------------------------------------------------------------------
@@ -719,7 +805,7 @@ type timeT struct {
 }
 
 // universeOf lists the certificates verified against a graph and the verification times.
-func universeOf(u *pki.Universe, b *pki.Built, siblings bool) (certs []*pki.Cert, inGraph []bool, times []timeT) {
+func universeOf(u certSource, b *pki.Built, siblings bool) (certs []*pki.Cert, inGraph []bool, times []timeT) {
 	s := b.Spec
 	seen := map[string]bool{}
 	add := func(c *pki.Cert, in bool) {
@@ -782,10 +868,47 @@ type bounds struct {
 	names    int  // how many of namesFor
 	oneCRL   int  // how many of oneCRLKinds
 	crlSet   int  // how many of crlSetKinds
+	// oneAtATime: instead of the full product name x OneCRL x CRLSet, every value of each of the three with the
+	// other two at their default ("" / nil / nil)
+	oneAtATime bool
+}
+
+type confT struct {
+	name   string
+	ok, ck int
+}
+
+func (bd bounds) configs(names []string) (out []confT) {
+	if len(names) > bd.names {
+		names = names[:bd.names]
+	}
+	if bd.oneAtATime {
+		for _, n := range names {
+			out = append(out, confT{n, 0, 0})
+		}
+		for ok := 1; ok < bd.oneCRL; ok++ {
+			out = append(out, confT{names[0], ok, 0})
+		}
+		for ck := 1; ck < bd.crlSet; ck++ {
+			out = append(out, confT{names[0], 0, ck})
+		}
+		return
+	}
+	for _, n := range names {
+		for ok := 0; ok < bd.oneCRL; ok++ {
+			for ck := 0; ck < bd.crlSet; ck++ {
+				out = append(out, confT{n, ok, ck})
+			}
+		}
+	}
+	return
 }
 
 // graphState evaluates one graph state completely (or one recorded case of it).
-func graphState(c *ev.Ctx, u *pki.Universe, s *pki.Spec, bd bounds, h ev.Hist, only *witness) {
+// wins are the windows the specification's Win indexes refer to; nowU says they
+// are relative to the wall clock: the verification times are then "now", passed
+// explicitly and left to the documented default.
+func graphState(c *ev.Ctx, u certSource, wins []pki.Window, nowU bool, s *pki.Spec, bd bounds, h ev.Hist, only *witness) {
 	b := u.Build(s, false)
 	if diff := b.CheckDump(); diff != "" {
 		c.Broken("the graph built from %q is not the specified graph: %s", s.Name, diff)
@@ -797,7 +920,7 @@ func graphState(c *ev.Ctx, u *pki.Universe, s *pki.Spec, bd bounds, h ev.Hist, o
 		if only != nil && only.Cert != cert.Desc {
 			continue
 		}
-		k := &caseT{u: u, b: b, cert: cert, inGraph: inGraph[ci], isRoot: isRootInSpec(s, b, cert), walked: map[string]*chainRef{}, other: other}
+		k := &caseT{u: u, wins: wins, nowU: nowU, b: b, cert: cert, inGraph: inGraph[ci], isRoot: isRootInSpec(s, b, cert), walked: map[string]*chainRef{}, other: other}
 		// the reference view: WalkChains, once per certificate
 		for _, ch := range b.G.WalkChains(cert.X) {
 			ref := &chainRef{}
@@ -806,7 +929,7 @@ func graphState(c *ev.Ctx, u *pki.Universe, s *pki.Spec, bd bounds, h ev.Hist, o
 				if pc == nil {
 					c.Broken("WalkChains returned a certificate that was never minted")
 				}
-				w := pki.Windows[pc.Desc.Win] // the window the specification gave the certificate
+				w := wins[pc.Desc.Win] // the window the specification gave the certificate
 				if i == 0 || w.NotBefore.After(ref.lower) {
 					ref.lower = w.NotBefore
 				}
@@ -834,23 +957,41 @@ func graphState(c *ev.Ctx, u *pki.Universe, s *pki.Spec, bd bounds, h ev.Hist, o
 			c.Distinct.Add(1)
 		}
 		h[fmt.Sprintf("certificate in graph=%v root=%v CA=%v", k.inGraph, k.isRoot, cert.Desc.To.CA)]++
-		names := namesFor(cert)
-		if len(names) > bd.names {
-			names = names[:bd.names]
+		confs := bd.configs(namesFor(cert))
+		if nowU {
+			// the only verification time is the wall clock: once passed explicitly (sampled before the call), once
+			// left to the default; both are judged by the reference, then compared with each other
+			for _, cf := range confs {
+				if only != nil && (only.Name != cf.name || only.OneCRL != cf.ok || only.CRLSet != cf.ck) {
+					continue
+				}
+				var sigsExp []string
+				rExp := k.verifyOne(c, h, time.Now(), "time.Now() sampled before the call, passed as VerifyTime", cf.name, cf.ok, cf.ck, true, false, &sigsExp, nil)
+				rDef := k.verifyOne(c, h, time.Time{}, "VerifyTime left zero; reference time = time.Now() sampled before the call", cf.name, cf.ok, cf.ck, true, true, nil, sigsExp)
+				if rExp == nil || rDef == nil {
+					continue
+				}
+				if diff := k.sameResult(rDef, rExp); len(diff) > 0 {
+					w := witness{Spec: s, Graph: s.Describe(), Cert: cert.Desc, InGraph: k.inGraph, NowU: true, Default: true, Time: time.Now(), TimeNote: "VerifyTime left zero, compared with VerifyTime = time.Now()",
+						Name: cf.name, OneCRL: cf.ok, CRLSet: cf.ck, OneCRLs: oneCRLKinds[cf.ok], CRLSets: crlSetKinds[cf.ck],
+						Detail: "fields that differ: " + strings.Join(diff, ", "), Result: map[string]any{"verify_time_zero": k.dump(rDef), "verify_time_now": k.dump(rExp)}}
+					c.Violation(defaultPrefix+"the result differs from the result for an explicit VerifyTime = time.Now()", w)
+					h["zero VerifyTime vs explicit now: results differ"]++
+				} else {
+					h["zero VerifyTime vs explicit now: results equal field by field"]++
+				}
+			}
+			continue
 		}
 		for _, tt := range times {
 			if only != nil && !only.Time.Equal(tt.t) {
 				continue
 			}
-			for _, name := range names {
-				for ok := 0; ok < bd.oneCRL; ok++ {
-					for ck := 0; ck < bd.crlSet; ck++ {
-						if only != nil && (only.Name != name || only.OneCRL != ok || only.CRLSet != ck) {
-							continue
-						}
-						k.verifyOne(c, h, tt.t, tt.note, name, ok, ck, true)
-					}
+			for _, cf := range confs {
+				if only != nil && (only.Name != cf.name || only.OneCRL != cf.ok || only.CRLSet != cf.ck) {
+					continue
 				}
+				k.verifyOne(c, h, tt.t, tt.note, cf.name, cf.ok, cf.ck, true, false, nil, nil)
 			}
 		}
 	}
@@ -867,7 +1008,14 @@ func main() {
 				c.Broken("bad witness: %v", err)
 			}
 			h := ev.Hist{}
-			graphState(c, pki.NewUniverse(), w.Spec, bounds{siblings: true, names: 6, oneCRL: len(oneCRLKinds), crlSet: len(crlSetKinds)}, h, &w)
+			if w.NowU {
+				// windows relative to the wall clock of THIS run: the case is the same relative to now
+				wins := nowWindows(time.Now().Truncate(time.Second))
+				graphState(c, newNowUniverse(wins), wins, true, w.Spec, bounds{siblings: true, names: 6, oneCRL: len(oneCRLKinds), crlSet: len(crlSetKinds)}, h, &w)
+				c.Merge(h)
+				return
+			}
+			graphState(c, pki.NewUniverse(), pki.Windows[:], false, w.Spec, bounds{siblings: true, names: 6, oneCRL: len(oneCRLKinds), crlSet: len(crlSetKinds)}, h, &w)
 			c.Merge(h)
 			return
 		}
@@ -923,13 +1071,14 @@ func main() {
 		}
 		c.Set("graph_states", map[string]any{"states": len(states), "per_shape": perShape})
 		c.Set("windows", pki.Windows)
-		c.Rule("graph states = hand-listed shapes of the C11 families (straight chains, two roots, parallel certificates, cross-signed roots, cycles, mutual cross-signs, key rollover, dangling issuer, non-CA intermediate, parallel root/non-root certificates, cycle edge as root, lone self-signed root): " + ruleStates + "; validity windows: W0 wide, W1 nested in W0 and ending 2 s before W0 ends, W2 beginning at that instant (touching W1, overlapping the last 2 s of W0), W3 disjoint — so a chain through a W2 parent is valid exactly 1 s, and no longer, before a W0 certificate expires; VerifyTime = every distinct NotBefore/NotAfter of the state's certificates x {-1 s, 0, +1 s} (this includes NotAfter-1 s and NotAfter-2 s); Name = {\"\", exact SAN or CN, wildcard instance in upper case with trailing dot / upper-case CN with dot, other.example, a name one label too deep, the CN of a certificate that has SANs}; OneCRL = {" + strings.Join(oneCRLKinds, " | ") + "}; CRLSet = {" + strings.Join(crlSetKinds, " | ") + "}; full product of certificate x time x name x OneCRL x CRLSet. distinct = (state, certificate) pairs with at least one walked chain")
+		c.Rule("graph states = hand-listed shapes of the C11 families (straight chains, two roots, parallel certificates, cross-signed roots, cycles, mutual cross-signs, key rollover, dangling issuer, non-CA intermediate, parallel root/non-root certificates, cycle edge as root, lone self-signed root): " + ruleStates + "; validity windows: W0 wide, W1 nested in W0 and ending 2 s before W0 ends, W2 beginning at that instant (touching W1, overlapping the last 2 s of W0), W3 disjoint — so a chain through a W2 parent is valid exactly 1 s, and no longer, before a W0 certificate expires; VerifyTime = every distinct NotBefore/NotAfter of the state's certificates x {-1 s, 0, +1 s} (this includes NotAfter-1 s and NotAfter-2 s); Name = {\"\", exact SAN or CN, wildcard instance in upper case with trailing dot / upper-case CN with dot, other.example, a name one label too deep, the CN of a certificate that has SANs}; OneCRL = {" + strings.Join(oneCRLKinds, " | ") + "}; CRLSet = {" + strings.Join(crlSetKinds, " | ") + "}; full product of certificate x time x name x OneCRL x CRLSet. PLUS the default verification time: a second universe whose windows are relative to the wall clock at the start of the run (valid now [now-48h, now+48h] | expired [now-48h, now-2h] | not yet valid [now+2h, now+48h]); graph states = {lone root, leaf<-root, leaf<-intermediate<-root, leaf<-intermediate<-two roots} x EVERY assignment of the three windows to the certificates (3+9+27+243 states); per state every certificate of the graph + an expired fresh leaf under every node + a leaf with unknown issuer" + ev.Pick(c, "", " + a sibling of each certificate that is not in the graph") + "; per certificate " + ev.Pick(c, "every name, every OneCRL kind, every CRLSet kind, one at a time with the other two at their default", "the full product name x OneCRL x CRLSet") + "; each configuration verified twice, with VerifyTime = time.Now() sampled before the call and with VerifyTime left zero: both results are judged by the reference above (reference time = the sampled wall clock) and then compared with each other field by field (chains and parents as sets; every field except VerificationResult.VerifyTime). distinct = (state, certificate) pairs with at least one walked chain")
 		c.Assume("Graph.WalkChains is trusted (C11): the reference view of a certificate's chains is one WalkChains call per (state, certificate)",
 			"date classes on an exact boundary instant (VerifyTime equal to the start or end of a chain's common window, or a window that is a single instant) accept both neighbouring lists; the Expired flag is false exactly when NotBefore < VerifyTime < NotAfter (documentation of VerificationResult.Expired and of TimeInValidityPeriod, both strict): ON NotBefore/NotAfter it must be true",
 			"Parents and CertificateType follow reading R1 (code comment and DESIGN: second certificates of the valid-at-expiration chains if Expired, else of the current chains); the two looser readings of the field documentation only name the mismatch",
 			"OneCRL and CRLSet values are built directly as Go structs in the form Check consumes (IssuerLists keyed by hex SPKI hash as verifier.go passes it; BlockedSPKIs in hex and, thorough tier, in the base64 form google.Parse leaves them in); parsing of the wire formats is C15's subject",
 			"a CRLSet that names the key the certificate was issued under while Parents is empty: accepted either way when some walked chain (of any date class) has a second certificate with that key (the statement does not say which chains supply the parents for this purpose); must be 'not listed' when no walked chain has one (the certificate does not carry its issuer's key, so no reading lets the verifier find the listing); NameError must be nil when no name is given",
-			"fields the statement does not name (VerifyTime, ValidationError, ParentSPKI..., OCSP/CRL fields) are not judged; two observations about them are counted as info outcomes")
+			"fields the statement does not name (VerifyTime, ValidationError, ParentSPKI..., OCSP/CRL fields) are not judged; two observations about them are counted as info outcomes",
+			"the default of VerificationOptions (opts.clean applies exactly one: a zero VerifyTime means time.Now(); a nil OneCRL/CRLSet, an empty Name and ShouldCheckOCSP/ShouldCheckCRL=false are the values every call above already passes) is exercised against the wall clock: validity boundaries of that universe are >= 2 h away from the instant it is created and the part is abandoned (incomplete, not judged) should the run ever last 1 h, so the class of 'now' relative to every boundary cannot change during the run")
 
 		W := c.Workers()
 		unis := make([]*pki.Universe, W)
@@ -938,9 +1087,40 @@ func main() {
 			unis[i] = pki.NewUniverse()
 			hists[i] = ev.Hist{}
 		}
+
+		// --- the default verification time: windows relative to the wall clock (first: a budget stop must not drop it)
+		{
+			now0 := time.Now().Truncate(time.Second)
+			wins := nowWindows(now0)
+			var nowStates []*pki.Spec
+			perNow := map[string]int{}
+			for _, s := range []*pki.Spec{pki.Straight(1), pki.Straight(2), pki.Straight(3), pki.TwoRoots()} {
+				l := allWindowAssignments(s, len(wins))
+				perNow[s.Name] = len(l)
+				nowStates = append(nowStates, l...)
+			}
+			bdNow := bounds{siblings: !c.Quick(), names: 6, oneCRL: len(oneCRLKinds), crlSet: len(crlSetKinds), oneAtATime: c.Quick()}
+			nowUnis := make([]*nowUniverse, W)
+			for i := range nowUnis {
+				nowUnis[i] = newNowUniverse(wins)
+			}
+			var late atomic.Bool
+			doneNow := c.Parallel(len(nowStates), func(w, i int) {
+				if time.Since(now0) > time.Hour {
+					late.Store(true)
+					return
+				}
+				graphState(c, nowUnis[w], wins, true, nowStates[i], bdNow, hists[w], nil)
+			})
+			if !doneNow || late.Load() {
+				c.Incomplete("budget hit (or the run lasted more than an hour): only part of the now-relative graph states was verified")
+			}
+			c.Set("now_relative_states", map[string]any{"states": len(nowStates), "per_shape": perNow, "windows": nowWindowNames, "created": now0.UTC().Format(time.RFC3339), "lasted": time.Since(now0).Round(time.Millisecond).String()})
+		}
+
 		sampled := 0
 		done := c.Parallel(len(states), func(w, i int) {
-			graphState(c, unis[w], states[i].spec, states[i].bd, hists[w], nil)
+			graphState(c, unis[w], pki.Windows[:], false, states[i].spec, states[i].bd, hists[w], nil)
 		})
 		if !done {
 			c.Incomplete(fmt.Sprintf("budget hit: only part of the %d graph states was verified", len(states)))
